@@ -67,7 +67,14 @@ pub fn one_run(prop: &str, seed: u64, run: u64, keep_log: bool) -> RunResult {
     }
     let mut rng = Rng::new(seed, prop_stream(prop), run);
     let cfg = gen_world(&mut rng, prop);
-    let profile = profile_for(prop);
+    let mut profile = profile_for(prop);
+    if prop == "C18" && cfg.kind != WorldKind::FeedOnly && rng.chance(1, 6) {
+        // a long run of consecutive busy blocks
+        profile.long_busy = true;
+        profile.min_steps = 240;
+        profile.max_steps = 420;
+        profile.w = [80, 2, 4, 10, 2, 0, 0];
+    }
     let n_steps = rng.range(profile.min_steps as u64, profile.max_steps as u64) as usize;
     let mut res = RunResult { run, world: Some(cfg.clone()), ..Default::default() };
     let mut r = match Runner::new(&cfg, prop) {
